@@ -2341,13 +2341,17 @@ func (d *AuthenticatedGossiper) processZombieUpdate(_ context.Context,
 			"with chan_id=%v", msg.ShortChannelID)
 	}
 
-	err := netann.VerifyChannelUpdateSignature(msg, pubKey)
+	// Besides the signature, the update's fields must be consistent: an
+	// update that would be refused once the channel is known again must
+	// not resurrect it. The capacity is unknown for a zombie, so it is
+	// left out of the check.
+	err := netann.ValidateChannelUpdateAnn(pubKey, 0, msg)
 	if err != nil {
-		return fmt.Errorf("unable to verify channel "+
-			"update signature: %v", err)
+		return fmt.Errorf("unable to validate channel "+
+			"update: %v", err)
 	}
 
-	// With the signature valid, we'll proceed to mark the
+	// With the update valid, we'll proceed to mark the
 	// edge as live and wait for the channel announcement to
 	// come through again.
 	err = d.cfg.Graph.MarkEdgeLive(lnwire.GossipVersion1, scid)
